@@ -115,3 +115,104 @@ def c20_replay(prop, r):
     if len(outs) > 1:
         return 1
     return 0
+
+
+def _c17_round(seed, n_types, wd, k):
+    """generate, build and run one derive-case crate; returns (meta, summary, mismatches)"""
+    crate = os.path.join(wd, "crate%d" % k)
+    gen = subprocess.run([sys.executable, os.path.join(lib.VERIF, "bin", "derive_gen.py"),
+                          str(seed), str(n_types), crate], stdout=subprocess.PIPE, text=True)
+    if gen.returncode != 0:
+        return None, "generator failed", None
+    meta = json.loads(gen.stdout.strip().splitlines()[-1])
+    try:
+        import shutil
+        shutil.copy(os.path.join(lib.REPO, "Cargo.lock"), os.path.join(crate, "Cargo.lock"))
+    except OSError:
+        pass
+    env = dict(lib.ENV)
+    env["CARGO_TARGET_DIR"] = os.path.join(lib.VERIF, "target", "derive")
+    env["RUSTFLAGS"] = ""
+    b = subprocess.run(["cargo", "build", "--offline", "--manifest-path",
+                        os.path.join(crate, "Cargo.toml")], env=env, stdout=subprocess.PIPE,
+                       stderr=subprocess.STDOUT, text=True)
+    if b.returncode != 0:
+        sys.stderr.write(b.stdout[-4000:])
+        return meta, "generated crate does not compile", None
+    r = subprocess.run([os.path.join(env["CARGO_TARGET_DIR"], "debug", "derive-case")],
+                       stdout=subprocess.PIPE, stderr=subprocess.DEVNULL, text=True, env=lib.ENV)
+    summary, mism = None, []
+    for line in r.stdout.splitlines():
+        try:
+            j = json.loads(line)
+        except ValueError:
+            continue
+        if j.get("summary"):
+            summary = j
+        else:
+            mism.append(j)
+    if summary is None:
+        return meta, "runner died rc=%s" % r.returncode, None
+    return meta, summary, mism
+
+
+def c17(prop, tier, seed):
+    t0 = time.time()
+    cfg = PROPS[prop]
+    full = lib.build("full")
+    if full is None:
+        lib.say("INCONCLUSIVE property=%s reason=harness build failed" % prop)
+        return 2
+    wd = lib.workdir(prop)
+    rounds, n_types = cfg["cases"][tier]
+    tot = {"runs": 0, "values": 0, "stdout": 0, "stderr": 0}
+    types = structs = enums = 0
+    by_sig, violations, samples = {}, [], []
+    for k in range(rounds):
+        rseed = seed * 1000 + k
+        meta, summary, mism = _c17_round(rseed, n_types, wd, k)
+        if mism is None:
+            lib.say("INCONCLUSIVE property=%s reason=%s (generator seed %d)" % (prop, summary, rseed))
+            return 2
+        types += meta["types"]
+        structs += meta["structs"]
+        enums += meta["enums"]
+        for key in tot:
+            tot[key] += summary[key]
+        for m in mism:
+            sig = "derive-differs:%s-vs-%s" % (m["derived"][0], m["manual"][0])
+            by_sig[sig] = by_sig.get(sig, 0) + 1
+            if sum(1 for v in violations if v["signature"] == sig) < 3:
+                violations.append({"signature": sig, "clause": "derive-vs-combinators",
+                                   "case": rseed,
+                                   "detail": {"generator_seed": rseed, "n_types": n_types,
+                                              "type": m["type"], "argv": m["argv"],
+                                              "derived": m["derived"], "manual": m["manual"]}})
+        if k == 0:
+            # a few generated definitions as samples
+            src = open(os.path.join(wd, "crate0", "src", "main.rs")).read()
+            at = src.find("#[derive(Debug, Clone, PartialEq, Bpaf)]")
+            samples.append({"generated_source_excerpt": src[at:at + 1500]})
+    merged = {"evaluations": tot["runs"] * 2,
+              "counters": {"types": types, "structs": structs, "enums": enums,
+                           "vector_runs": tot["runs"], "outcome:value": tot["values"],
+                           "outcome:stdout": tot["stdout"], "outcome:stderr": tot["stderr"],
+                           "crates_compiled": rounds},
+              "maxima": {}, "inconclusive": {}, "by_signature": by_sig,
+              "violation_count": sum(by_sig.values()), "samples": samples,
+              "violations": violations, "cases_done": types, "hooks": False}
+    return lib.finish(prop, tier, seed, full, merged, tot["runs"], types, t0)
+
+
+def c17_replay(prop, r):
+    d = r["detail"]
+    wd = os.path.join(lib.VERIF, "work", "C17replay")
+    os.makedirs(wd, exist_ok=True)
+    meta, summary, mism = _c17_round(d["generator_seed"], d["n_types"], wd, 0)
+    if mism is None:
+        lib.say("replay failed: %s" % summary)
+        return 2
+    hit = [m for m in mism if m["type"] == d["type"] and m["argv"] == d["argv"]]
+    for m in hit:
+        lib.say(json.dumps(m, indent=1)[:3000])
+    return 1 if hit else 0
